@@ -221,16 +221,17 @@ func (r *Resource) as(target any) error {
 		return nil
 	}
 	extras := rem.Remain()
-	for attrName := range existingAttrs {
-		attr, ok := r.Attr(attrName)
-		if !ok {
-			return fmt.Errorf("schemahcl: expected attr %q to exist", attrName)
+	// Keep the remaining attributes and children in the order
+	// they were defined to make the result deterministic.
+	for _, attr := range r.Attrs {
+		if _, ok := existingAttrs[attr.K]; ok {
+			extras.SetAttr(attr)
 		}
-		extras.SetAttr(attr)
 	}
-	for childType := range existingChildren {
-		children := childrenOfType(r, childType)
-		extras.Children = append(extras.Children, children...)
+	for _, child := range r.Children {
+		if _, ok := existingChildren[child.Type]; ok {
+			extras.Children = append(extras.Children, child)
+		}
 	}
 	// In case the resource contains a remain (DefaultExtension) and
 	// the range was not explicitly set, attach to it the position.
